@@ -133,8 +133,20 @@ def r4_contiguous(ctx: Ctx, sp: FuncInfo) -> None:
     n = 0
     from ._tables import fold_str, module_value
     mi = sp.module
+    subs = []          # (call, pattern expression, replacement, subject)
     for c in fl.calls('sub'):
-        if dotted(c.func) == 're.sub' and len(c.args) >= 3:
+        # a loop over a module-level tuple of precompiled patterns: `for rx in PATTERNS: text = rx.sub('', text)` - one deletion per element
+        if isinstance(c.func, ast.Attribute) and isinstance(c.func.value, ast.Name) and len(c.args) >= 2:
+            lp_ = [a for a in ancestors(c) if isinstance(a, ast.For) and isinstance(a.target, ast.Name) and a.target.id == c.func.value.id and isinstance(a.iter, ast.Name)]
+            tv = module_value(mi, lp_[0].iter.id) if lp_ else None
+            if isinstance(tv, (ast.Tuple, ast.List)) and tv.elts and all(isinstance(e_, ast.Call) and dotted(e_.func) == 're.compile' and e_.args for e_ in tv.elts):
+                subs += [(c, e_.args[0], c.args[0], c.args[1]) for e_ in tv.elts]
+                continue
+        subs.append((c, None, None, None))
+    for c, pat_, repl_, subj_ in subs:
+        if pat_ is not None:
+            pat, repl, subj = pat_, repl_, subj_
+        elif dotted(c.func) == 're.sub' and len(c.args) >= 3:
             pat, repl, subj = c.args[0], c.args[1], c.args[2]
         elif isinstance(c.func, ast.Attribute) and isinstance(c.func.value, ast.Name) and len(c.args) >= 2 and (cv := module_value(mi, c.func.value.id)) is not None \
                 and isinstance(cv, ast.Call) and dotted(cv.func) == 're.compile' and cv.args:
